@@ -79,7 +79,7 @@ pub fn run(ctx: &Ctx, out: &mut Out) {
     for i in 0..n {
         let mut rng = ctx.rng(0, i as u64);
         let depth = 1 + rng.usize_below(5);
-        let mut g = Gen::new(&mut rng, GenCfg { max_depth: depth, ..GenCfg::default() });
+        let mut g = Gen::new(&mut rng, GenCfg { max_depth: depth, const_ty_any: true, ..GenCfg::default() });
         let t = g.ty(depth, 0);
         heads(&t, &mut hist);
         one(&t, out, "gen");
